@@ -111,7 +111,7 @@ pub fn run(ctx: &mut Ctx) -> bool {
             blackbox::run_c03(ctx);
         }
         "C08" => {
-            ctx.rule = "Cases are UCI sessions against the real binary: a position (game-like, or a checkmate / stalemate reached by playing finishing moves from near-mate constructions) + one `go` (slices 0-250 ms, movestogo >= 1 or absent) ; the `bestmove` (legal move, or `0000`/`(none)` when the game is over) must arrive within plan + 500 ms where plan is the engine's own calculate_time_slice for that command; then `isready` must be answered within 1 s, a fresh `position` + `go` must be served with a legal move and `quit` must end the process (a panic message on stderr is quoted as context in a report but is by itself C07's subject, not C08's). Six in ten sessions start with option lines followed by isready (`setoption name Ponder value true`, after which `bestmove X ponder Y` is accepted; `Hash` 1 / 64 / 256 / 1024; the `Clear Hash` button): what an option costs must be paid at `isready`, not at `go`. On finished games half of the cases carry clocks planning a slice of seconds (answer at once anyway); the follow-up `go` has a zero allowance and its delay counts against the same bound. A latency miss is re-measured twice serially; only three misses make a violation; a missing answer is detected after plan + 10 s. Non-trivial = terminal position, or a slice > 0; distinct by (position, go). A second family uses constructed legal positions with very large capture trees (random swarms of up to seven queens or rooks a side, and balanced lattices of eight a side on two bands of alternating squares where every man is attacked and defended; side to move possibly in check) and slices of 0-130 ms given in three clock forms: one quiescence search there costs seconds, so the answer is on time only if the clock is consulted inside it (non-trivial there = at least eight heavy men). A third, small family uses slices of 6-8 s (three clock forms) run side by side: an overhead that grows with the slice shows only there.".into();
+            ctx.rule = "Cases are UCI sessions against the real binary: a position (game-like, or a checkmate / stalemate reached by playing finishing moves from near-mate constructions) + one `go` (slices 0-250 ms, movestogo >= 1 or absent) ; the `bestmove` (legal move, or `0000`/`(none)` when the game is over) must arrive within plan + 500 ms where plan is the engine's own calculate_time_slice for that command; then `isready` must be answered within 1 s, a fresh `position` + `go` must be served with a legal move and `quit` must end the process (a panic message on stderr is quoted as context in a report but is by itself C07's subject, not C08's). Six in ten sessions start with option lines followed by isready (`setoption name Ponder value true`, after which `bestmove X ponder Y` is accepted; `Hash` 1 / 64 / 256 / 1024; the `Clear Hash` button): what an option costs must be paid at `isready`, not at `go`. On finished games half of the cases carry clocks planning a slice of seconds (answer at once anyway); the follow-up `go` has a zero allowance and its delay counts against the same bound. A latency miss is re-measured twice serially; only three misses make a violation; a missing answer is detected after plan + 10 s. Non-trivial = terminal position, or a slice > 0; distinct by (position, go). A second family uses constructed legal positions with very large capture trees (random swarms of up to seven queens or rooks a side, and balanced lattices of eight a side on two bands of alternating squares where every man is attacked and defended; side to move possibly in check) and slices of 0-130 ms given in three clock forms: one quiescence search there costs seconds, so the answer is on time only if the clock is consulted inside it (non-trivial there = at least eight heavy men). A third, small family uses slices of 6-8 s (three clock forms) run side by side: an overhead that grows with the slice shows only there; two of three of its positions are balanced lattices with a smothered-mate gadget (the search finds the mate in one, spends seconds on the capture trees of the other root moves and ends long before the slice does).".into();
             ctx.assumptions = vec!["material is limited to what promotions can produce (at most eight queens or rooks a side besides the king)".into(), "schedules are sampled (<= 8 engines at a time)".into()];
             blackbox::run_c08(ctx);
             blackbox::run_c08_swarm(ctx);
